@@ -181,7 +181,13 @@ func runViewCase(c *viewCase, root string) (res viewResult) {
 				qid := fmt.Sprintf("%s.%d", cl, q)
 				asc := r.Intn(2) == 0
 				rec.emit(viewEvent{"ev": "QBegin", "c": cl, "q": qid})
-				rows, err := e.Read("m", []engx.FieldReq{{Name: "f", Typ: influxql.Integer}}, []string{"host"}, timeBase+timeStep, timeBase+100*timeStep, asc)
+				// half of the queries carry no time bound that falls inside the shard: the store then takes its view of the
+				// file lists through the "no time filter" path (shard.CreateCursor: hasTimeFilter = false)
+				qmin, qmax := timeBase+timeStep, timeBase+100*timeStep
+				if r.Intn(2) == 0 {
+					qmin, qmax = influxql.MinTime, influxql.MaxTime
+				}
+				rows, err := e.Read("m", []engx.FieldReq{{Name: "f", Typ: influxql.Integer}}, []string{"host"}, qmin, qmax, asc)
 				if err != nil {
 					atomic.AddInt64(&readErrs, 1)
 					rec.emit(viewEvent{"ev": "QErr", "c": cl, "q": qid, "closed": atomic.LoadInt32(&closed), "err": err.Error()})
@@ -193,7 +199,7 @@ func runViewCase(c *viewCase, root string) (res viewResult) {
 				atomic.AddInt64(&nQueries, 1)
 				out := map[string]int64{}
 				for _, row := range rows {
-					if row.Vals[0].Null {
+					if row.Vals[0].Null || row.Time < timeBase+timeStep { // (the row at timeBase only creates the series)
 						continue
 					}
 					key := fmt.Sprintf("%s|%d", row.Series[len("host="):], (row.Time-timeBase)/timeStep)
